@@ -84,7 +84,7 @@ theorem runSteps_ragged_nonzero (rows : List OptRow) (maps : List NameMap) (wiri
     (catches : List (String × Nat)) (readFile : String → Option Str) (lib : Lib) (o : Opts) (f d : Expr)
     (hcatch : catchExit catches ≠ 0)
     (hrag : ∀ name dl, fileName rows maps o f = some name → delimOf rows maps o d = some dl →
-      ∃ content i, readFile name = some content ∧ matrixOfRows (readRows parseNum dl content) = .error (.ragged i)) :
+      ∃ content i, readFile name = some content ∧ matrixOfRows (readRowsWith readLoopRereadsLastLine parseNum dl content) = .error (.ragged i)) :
     ∀ (steps : List Step) (s : St), reachesRead f d steps = true →
       (runSteps rows maps wiring catches readFile lib o steps s).exit ≠ 0
   | [], _, h => by simp [reachesRead] at h
